@@ -486,10 +486,44 @@ func walkExpr(e Expr, f func(Expr)) {
 
 func (x *Exec) specEnvFor(sf *SpecFunc, env *SpecEnv) *SpecEnv {
 	n := *env
-	if p, ok := x.P.Pkgs[sf.Pkg]; ok {
-		n.pkg = p.Types
+	if p := x.typesPkg(sf.Pkg); p != nil {
+		n.pkg = p
 	}
 	return &n
+}
+
+// typesPkg finds the types.Package of a scope package by its short name, loaded or imported.
+func (x *Exec) typesPkg(short string) *types.Package {
+	if p, ok := x.P.Pkgs[short]; ok {
+		return p.Types
+	}
+	path, ok := scopePkgs[short]
+	if !ok {
+		return nil
+	}
+	seen := map[*types.Package]bool{}
+	var find func(p *types.Package) *types.Package
+	find = func(p *types.Package) *types.Package {
+		if p == nil || seen[p] {
+			return nil
+		}
+		seen[p] = true
+		if p.Path() == path {
+			return p
+		}
+		for _, imp := range p.Imports() {
+			if r := find(imp); r != nil {
+				return r
+			}
+		}
+		return nil
+	}
+	for _, lp := range x.P.Pkgs {
+		if r := find(lp.Types); r != nil {
+			return r
+		}
+	}
+	return nil
 }
 
 func (x *Exec) applySpec(env *SpecEnv, sf *SpecFunc, args []SVal) SVal {
